@@ -1529,3 +1529,57 @@ def paired_sort_rule(ctx, rid, floor=1):
                over_controls[0].lineno if bad else fn.lineno)
     if n == 0:
         raise AnalysisError(f'{rid}: no equality values that sort controls found')
+
+
+def approximate_getter_follows_exact_rule(ctx, rid, floor=2):
+    """The approximate-equality values a class inherits agree with the exact values it defines itself."""
+    repo = ctx.repo
+    ctx.decided.append(f'{rid} a class that overrides _value_equality_values_ under an ancestor decorated value_equality(approximate=True) gets approximate values computed from its own exact '
+                       'values (own getter, or the decorator\'s default dispatching through self)')
+    ctx.rule(rid, 'approximate equality sees what exact equality sees: the default `_value_equality_approximate_values_` installed by @value_equality(approximate=True) calls '
+             'self._value_equality_values_() (dispatching through self) instead of capturing the decorated class\'s getter - otherwise a subclass that adds fields to the exact values '
+             '(PauliInteractionGate: the two Paulis) inherits approximate values without them, and since both getters memoise under one name, approx_eq(CZ-like, CNOT-like) is True and '
+             'afterwards == is True as well; each such subclass is an instance', floor=floor, style='COH')
+    vm = repo.module('cirq-core/cirq/value/value_equality_attr.py')
+    dec = vm.defs.get('value_equality')
+    if not isinstance(dec, ast.FunctionDef):
+        raise AnalysisError('value_equality decorator vanished')
+    # the value installed under `if not hasattr(cls, '_value_equality_approximate_values_')`
+    installed = None
+    for st in ast.walk(dec):
+        if isinstance(st, ast.If) and 'hasattr' in ast.unparse(st.test) and '_value_equality_approximate_values_' in ast.unparse(st.test) and isinstance(st.test, ast.UnaryOp):
+            for c in ast.walk(ast.Module(body=st.body, type_ignores=[])):
+                if isinstance(c, ast.Call) and call_name(c) == 'setattr' and len(c.args) == 3 and '_value_equality_approximate_values_' in ast.unparse(c.args[1]):
+                    installed = c.args[2]
+    if installed is None:
+        raise AnalysisError('value_equality: the default approximate getter is no longer installed under a hasattr test')
+    dynamic = False
+    if isinstance(installed, ast.Lambda):
+        dynamic = '_value_equality_values_' in ast.unparse(installed.body) and 'self' in {a.arg for a in installed.args.args}
+    elif isinstance(installed, ast.Name):
+        tgt = vm.defs.get(installed.id)
+        if isinstance(tgt, ast.FunctionDef):
+            dynamic = any(isinstance(c, ast.Call) and isinstance(c.func, ast.Attribute) and c.func.attr == '_value_equality_values_' and isinstance(c.func.value, ast.Name)
+                          and c.func.value.id == tgt.args.args[0].arg for c in ast.walk(tgt))
+
+    def deco(ci):
+        for d in ci.node.decorator_list:
+            s_ = ast.unparse(d)
+            if 'value_equality' in s_:
+                return s_
+        return None
+    n = 0
+    for ci in sorted(repo.classes.values(), key=lambda c: c.qual):
+        if ci.mod.rel.endswith('_test.py') or '/testing/' in ci.mod.rel or '_value_equality_values_' not in ci.methods:
+            continue
+        anc = [a for a in repo.mro(ci)[1:] if deco(a) and 'approximate=True' in deco(a)]
+        if not anc:
+            continue
+        n += 1
+        own = '_value_equality_approximate_values_' in ci.methods or any('_value_equality_approximate_values_' in a.methods for a in repo.mro(ci)[1:])
+        ok = own or dynamic
+        ctx.ob(rid, f'{ci.qual}:approximate-values', ok, '' if ok else
+               f'{ci.name} defines its own exact equality values, but its approximate values are those of {anc[0].name} (the decorator captured that class\'s getter): fields that only '
+               f'{ci.name} compares are ignored by approx_eq, and the shared memo makes == agree afterwards', ci.mod.rel, ci.methods['_value_equality_values_'].lineno)
+    if n == 0:
+        raise AnalysisError(f'{rid}: no subclass overriding exact equality under an approximate base found')
